@@ -116,8 +116,12 @@ class Run(RunBase):
             raise HarnessError(f"obstacle {ob.obstacle_id} has no state/occupancy at assigned time step {t}")
         pos = (float(st.position[0]), float(st.position[1]))
         raw = geom.raw_shape(occ.shape)
-        center = {i: geom.point_in_ring(poly, ring, pos) for i, (poly, ring) in polys.items()}
-        shape = {i: geom.shape_meets_polygon(raw, poly) for i, (poly, _) in polys.items()}
+        lat = {i: geom.lattice_ring(ring) for i, (_, ring) in polys.items()}
+        pl, rl = geom.on_lattice(pos), geom.lattice_raw(raw)
+        center = {i: geom.point_in_ring(poly, ring, pos, exact=pl and lat[i]) for i, (poly, ring) in polys.items()}
+        shape = {i: geom.shape_meets_polygon(raw, poly, exact=rl and lat[i]) for i, (poly, _) in polys.items()}
+        if rl and any(lat[i] and poly.touches(geom._poly_of(raw)) for i, (poly, _) in polys.items()):
+            self.probe("footprint-exactly-tangent-to-a-lanelet")
         return center, shape, raw
 
     def _timesteps(self, ob):
@@ -464,7 +468,7 @@ class C07(Property):
                        "partially-assigned-obstacle-checked", "standing-obstacle-turns-on-the-spot",
                        "fork-keeps-original", "continued-on-the-other-copy", "creeping-obstacle-crosses-boundary",
                        "set-based-bystander-present", "center-on-lanelet-the-shape-does-not-touch",
-                       "pre-assigned-obstacle-added"]
+                       "pre-assigned-obstacle-added", "footprint-exactly-tangent-to-a-lanelet"]
     assumptions = [
         "geometric truth comes from crkit.geom with its don't-care band; the footprint at a time step is read from the "
         "parameters of occupancy_at_time(t).shape (whether that occupancy is the right placement is C04)",
@@ -482,8 +486,10 @@ class C07(Property):
 
     def gen_universe(self, rng, cfg):
         ids = gen.IdAlloc(rng, 1, 300)
+        lattice = rng.chance(0.2)
         net = gen.gen_network(rng, rows=rng.randint(1, 3), cols=rng.randint(1, 2), ids=ids, signs=False, lights=False,
-                              intersections=False, stop_lines=False, overlap=rng.chance(0.5), types=False, far=0.3)
+                              intersections=False, stop_lines=False, overlap=rng.chance(0.5), types=False, far=0.3,
+                              lattice=lattice)
         net.pop("_geom", None)
         obstacles = {}
         for j in range(rng.randint(1, 5)):
@@ -498,8 +504,17 @@ class C07(Property):
                 if spec["shape"]["t"] == "rect":
                     spec["shape"]["l"] *= 2.5
                     spec["shape"]["w"] *= 1.8
+            if lattice and spec["role"] in ("static", "dynamic") and rng.chance(0.8):
+                # axis-parallel boxes on lattice positions: their borders often coincide with lanelet borders
+                spec["shape"] = {"t": "rect", "l": float(rng.choice([2, 4, 6])), "w": float(rng.choice([2, 4]))}
+                x0, y0 = float(round(spec["init"]["pos"][0])), float(round(spec["init"]["pos"][1]))
+                spec["init"]["pos"], spec["init"]["ori"] = [x0, y0], 0.0
+                if spec.get("pred") and spec["pred"]["kind"] == "traj":
+                    step = float(rng.choice([0, 1, 2]))
+                    for n, st in enumerate(spec["pred"]["states"], start=1):
+                        st["pos"], st["ori"] = [x0 + n * step, y0], 0.0
             obstacles[f"o{j}"] = spec
-        if rng.chance(0.3):
+        if rng.chance(0.3) and not lattice:
             # a vehicle creeping across a lanelet boundary in tiny steps (the centre changes lanelet although
             # consecutive positions are almost equal)
             la = rng.pick(net["lanelets"])
